@@ -88,7 +88,18 @@ pub fn chains_for(v: AutosarVersion) -> Chains {
                 continue;
             }
             names_done.push(name);
-            if let Some((ct, _)) = t.find_sub_element(name, vm) {
+            if let Some((ct, idx)) = t.find_sub_element(name, vm) {
+                // a chain step t -> child is only usable if the document stays valid: an identifiable t needs its SHORT-NAME in
+                // front of the child, and in a few types (e.g. DIAG-EVENT-DEBOUNCE-ALGORITHM in 4.0.1) SHORT-NAME and the child are
+                // alternatives of one Choice group, so the parser reports ElementChoiceConflict for the pair
+                if name != ElementName::ShortName && t.is_named_in_version(v) {
+                    if let Some((_, sn_idx)) = t.find_sub_element(ElementName::ShortName, vm) {
+                        let conflict = sn_idx != idx && guard(|| t.find_common_group(&sn_idx, &idx).content_mode() == ContentMode::Choice).unwrap_or(true);
+                        if conflict {
+                            continue;
+                        }
+                    }
+                }
                 let id = et_ids(&ct);
                 if !seen.contains_key(&id) {
                     seen.insert(id, ());
@@ -574,12 +585,13 @@ impl<'a> G<'a> {
                     let name = if k == 0 { ElementName::Autosar } else { chain[k - 1].0 };
                     self.types_seen.insert(et_ids(&t), ());
                     let mut parent = GNode { name: name.to_str().to_string(), attrs: if k == 0 { vec![] } else { self.gen_required_attrs(t) }, items: Vec::new(), et: Some(t) };
-                    if t.is_named_in_version(self.v) {
+                    // (when the chain child IS the SHORT-NAME, it is the element's name: no second one)
+                    if t.is_named_in_version(self.v) && node.name != "SHORT-NAME" {
                         if let Some(sn) = self.short_name_node(t) {
                             parent.items.push(GItem::Node(sn));
                         }
                     }
-                    if t.content_mode() == ContentMode::Mixed && self.chance(50) {
+                    if t.content_mode() == ContentMode::Mixed && self.chance(50) && node.name != "SHORT-NAME" {
                         self.push_mixed_text(&mut parent, t);
                     }
                     parent.items.push(GItem::Node(node));
